@@ -141,28 +141,23 @@ theorem traces_unchanged (ndim : Nat) (samples : List (List ℝ)) (weights : Lis
   · intro i k
     simp [column]
 
-/-- a derived trace has one entry per sample, entry `i` being the derived value at sample `i`; the re-ordering step
-    of `compute_derived_trace` (`a[dst] = a[src]` with both index arrays equal, as in a single process) is the
-    identity -/
-theorem derived_trace_in_sample_order {γ β : Type} (f : γ → β) (samples : List γ) (p : List Nat) :
+/-- A derived trace has one entry per sample, entry `i` being the derived value at sample `i`.  The re-ordering step
+    of `compute_derived_trace` (`restore = all_index.argsort(); gathered[restore]`) returns the values in sample
+    order for **every** gather order: if entry `k` of the gathered list is the value `g` of sample `index[k]` and
+    `index` lists every sample once (one process: `0 … n-1`; several ranks: the blocks `r, r+size, …`
+    concatenated), the result is `g 0, g 1, …, g (n-1)` — ties or zeros among the weights play no role.
+    In one process nothing moves. -/
+theorem derived_trace_in_sample_order {γ β : Type} (f : γ → β) (samples : List γ) (g : Nat → β)
+    (index : List Nat) (n : Nat) (hp : index.Perm (List.range n)) :
     (derivedTrace f samples).length = samples.length ∧
     (∀ (i : Nat), (derivedTrace f samples)[i]? = (samples[i]?).map f) ∧
-    scatter p p (derivedTrace f samples) = derivedTrace f samples := by
-  refine ⟨by simp [derivedTrace], fun i => by simp [derivedTrace], ?_⟩
-  generalize derivedTrace f samples = a
-  apply List.ext_getElem?
-  intro i
-  unfold scatter
-  rw [List.getElem?_mapIdx]
-  cases hi : a[i]? with
-  | none => simp
-  | some old =>
-    simp only [Option.map_some]
-    cases hk : p.idxOf? i with
-    | none => rfl
-    | some k =>
-      obtain ⟨hlt, hget, _⟩ := List.idxOf?_eq_some_iff.1 hk
-      have : p[k]? = some i := by rw [List.getElem?_eq_getElem hlt, hget]
-      simp [this, hi]
+    restoreOrder index (index.map g) = (List.range n).map g ∧
+    restoreOrder (List.range (derivedTrace f samples).length) (derivedTrace f samples) = derivedTrace f samples :=
+  ⟨by simp [derivedTrace], fun i => by simp [derivedTrace], restoreOrder_map g index n hp, restoreOrder_range _⟩
+
+/-- two ranks, five samples: rank 0 holds samples 0, 2, 4, rank 1 holds 1, 3 -/
+example : ([0, 2, 4, 1, 3] : List Nat).Perm (List.range 5) ∧
+    restoreOrder [0, 2, 4, 1, 3] ["s0", "s2", "s4", "s1", "s3"] = ["s0", "s1", "s2", "s3", "s4"] := by
+  decide
 
 end Taurex.C09
